@@ -573,6 +573,8 @@ class ClassInfo:
         self.methods = {}
         self.attrs = {}
         self.decorators = {}
+        self.record = None      # 'dataclass' / 'namedtuple'
+        self.fields = None
 
 
 class Args:
@@ -597,8 +599,10 @@ def pos_of(node):
 
 
 class Interp:
-    def __init__(self, tree, relpath='bronzebeard/asm.py', line_class='Line'):
+    def __init__(self, tree, relpath='bronzebeard/asm.py', line_class='Line', source_text=None):
         import sys
+        self.source_text = source_text
+        self._raw_classes = None
         if sys.getrecursionlimit() < 20000:
             sys.setrecursionlimit(20000)
         self.tree = tree
@@ -957,8 +961,16 @@ class Interp:
                 raise self.err(st, 'computed base class')
             bases.append(d.split('.')[-1] if d.split('.')[0] in ('abc', 'enum', 'typing') else d)
         ci = ClassInfo(st.name, st, bases)
+        record = None
         if st.decorator_list:
-            ci.decorators = {dotted(d) or (dotted(d.func) if isinstance(d, ast.Call) else None) for d in st.decorator_list}
+            names = {(dotted(d) or (dotted(d.func) if isinstance(d, ast.Call) else None) or '?').split('.')[-1] for d in st.decorator_list}
+            if names <= {'dataclass', 'total_ordering', 'final'}:
+                record = 'dataclass' if 'dataclass' in names else None
+            else:
+                ci.decorators = names
+        if 'NamedTuple' in bases:
+            record = 'namedtuple'
+            ci.bases = [b for b in bases if b != 'NamedTuple']
         self.classes[st.name] = ci
         cframe = Frame(self, st.name, st, fr, self.fid_for(('class', st.name)))
         cframe.store = Store()
@@ -987,8 +999,93 @@ class Interp:
                 pass
             else:
                 raise self.err(b, 'statement in a class body is not modelled')
+        if record is not None:
+            self.make_record_class(ci, record, st)
         self.bind(fr, st.name, av(('cls', st.name)))
         out.next.append(store)
+
+    def raw_class(self, name, lineno):
+        """the class definition as written (annotations intact): the shared loader normalises `x: T` away"""
+        if self._raw_classes is None:
+            self._raw_classes = {}
+            if self.source_text is not None:
+                try:
+                    raw = ast.parse(self.source_text)
+                except SyntaxError:
+                    raw = None
+                if raw is not None:
+                    for n in ast.walk(raw):
+                        if isinstance(n, ast.ClassDef):
+                            self._raw_classes.setdefault((n.name, n.lineno), n)
+                            self._raw_classes.setdefault(n.name, n)
+        return self._raw_classes.get((name, lineno)) or self._raw_classes.get(name)
+
+    def record_fields(self, ci):
+        """[(field, default source or None, is a constructor parameter)] of a dataclass / NamedTuple, inherited fields first"""
+        if getattr(ci, 'fields', None) is not None:
+            return ci.fields
+        out = []
+        for b in ci.bases:
+            bi = self.classes.get(b)
+            if bi is not None and getattr(bi, 'record', None):
+                for f in self.record_fields(bi):
+                    out = [x for x in out if x[0] != f[0]] + [f]
+        raw = self.raw_class(ci.name, ci.node.lineno)
+        if raw is None:
+            raise self.err(ci.node, 'the fields of record class {} cannot be read (source text not available)'.format(ci.name))
+        for b in raw.body:
+            if isinstance(b, ast.AnnAssign) and isinstance(b.target, ast.Name):
+                ann = unparse(b.annotation)
+                if 'ClassVar' in ann:
+                    continue
+                default, init = None, True
+                if b.value is not None:
+                    default = unparse(b.value)
+                    v = b.value
+                    if isinstance(v, ast.Call) and (dotted(v.func) or '').split('.')[-1] == 'field':
+                        default = None
+                        for k in v.keywords:
+                            if k.arg == 'default':
+                                default = unparse(k.value)
+                            elif k.arg == 'default_factory':
+                                default = '({})()'.format(unparse(k.value))
+                            elif k.arg == 'init' and isinstance(k.value, ast.Constant) and k.value.value is False:
+                                init = False
+                out = [x for x in out if x[0] != b.target.id] + [(b.target.id, default, init)]
+        ci.fields = out
+        return out
+
+    def make_record_class(self, ci, kind, st):
+        ci.record = kind
+        fields = self.record_fields(ci)
+        if '__init__' in ci.methods:
+            return
+        params = ['self']
+        body = []
+        for name, default, init in fields:
+            if init:
+                params.append(name if default is None else '{}={}'.format(name, default))
+                body.append('    self.{0} = {0}'.format(name))
+            elif default is not None:
+                body.append('    self.{} = {}'.format(name, default))
+        if self.find_method(ci.name, '__post_init__')[1] is not None or '__post_init__' in ci.methods:
+            body.append('    self.__post_init__()')
+        src = 'def __init__({}):\n{}\n'.format(', '.join(params), '\n'.join(body) or '    pass')
+        try:
+            fn = ast.parse(src).body[0]
+        except SyntaxError:
+            raise self.err(st, 'cannot synthesise the constructor of record class {}'.format(ci.name))
+        for n in ast.walk(fn):
+            if hasattr(n, 'lineno'):
+                n.lineno = n.end_lineno = st.lineno
+        fn._parent = st
+        q = ci.name + '.__init__'
+        self.funcs[q] = fn
+        self.qual[id(fn)] = q
+        self.defcls[id(fn)] = ci.name
+        self.decor[q] = set()
+        ci.methods['__init__'] = q
+        self._fm_cache.clear()
 
     def st_Assign(self, fr, st, store, out):
         v = self.eval(fr, st.value)
@@ -1737,6 +1834,13 @@ class Interp:
                 for i in range(n):
                     parts[i] = join(parts[i], av(a))
             elif k == 'obj' and a[1] in self.classes:
+                ci = self.classes[a[1]]
+                if ci.record == 'namedtuple' and star is None:
+                    fs = [f for f, _, _ in self.record_fields(ci)]
+                    if len(fs) == n:
+                        for i, f in enumerate(fs):
+                            parts[i] = join(parts[i], self.load_attr_atom(fr, a, f, node))
+                    continue
                 raise self.err(node, 'unpacking an instance of {}'.format(a[1]))
         return parts
 
@@ -2495,6 +2599,12 @@ class Interp:
             elif k == 'cls' or k == 'lib':
                 out = join(out, av(a))          # typing generics
             elif k == 'obj' and a[1] in self.classes:
+                ci_ = self.classes[a[1]]
+                if ci_.record == 'namedtuple' and ci is not None:
+                    fs = [f for f, _, _ in self.record_fields(ci_)]
+                    if -len(fs) <= ci < len(fs):
+                        out = join(out, self.load_attr_atom(fr, a, fs[ci], node))
+                    continue
                 c, q = self.find_method(a[1], '__getitem__')
                 if q is None:
                     continue
